@@ -447,8 +447,9 @@ package headers
 
 //@ func (*Repository).PreviousHash
 //@   requires repoInv(repo)
-//@   ensures [C09.previous-unknown] !old(knownIn(repo.branches, hash)) ==> result0 == nil && result1 == -1
-//@   ensures [C09.previous] result0 != nil ==> exists(j, 0, len(repo.branches), holderAt(repo.branches, hash, j) && result1 == findH(repo.branches[j], hash) - 1 && anc(repo.branches[j], result1) != nil && *result0 == anc(repo.branches[j], result1).Hash)
+//@   ensures [C09.previous-unknown] !old(knownIn(repo.branches, hash)) && !has(repo.heights, hash) ==> result0 == nil && result1 == -1
+//@   ensures [C09.previous] result0 != nil && old(knownIn(repo.branches, hash)) ==> exists(j, 0, len(repo.branches), holderAt(repo.branches, hash, j) && result1 == findH(repo.branches[j], hash) - 1 && (anc(repo.branches[j], result1) != nil ==> *result0 == anc(repo.branches[j], result1).Hash) && (anc(repo.branches[j], result1) == nil ==> anc(repo.branches[j], result1 + 1) != nil && *result0 == anc(repo.branches[j], result1 + 1).Header.PrevBlock))
+//@   ensures [C09.previous-stored] result0 != nil && !old(knownIn(repo.branches, hash)) ==> has(repo.heights, hash) && result1 == repo.heights[hash] - 1 && result1 >= 0
 //@   ensures [C09.previous-nil] result0 == nil ==> result1 == -1
 //@   modifies nothing
 
